@@ -10,6 +10,25 @@ CLAIMS = {
              'authority (R4). Not decided: message timing between a Master and its followers.',
         technique='table constraints + who-may-write/dominance + abstract decision sets over the class hierarchy (ast)',
         design='4/C02'),
+    'C01': dict(
+        text='Convergence of N instances on one Master under all schedules is NOT decided (it quantifies over '
+             'interleavings no static argument in reach bounds). Decided are necessary structural conditions, for '
+             'every path of the program: no automatic start/stop/conciliation/repair/restart sink is reachable from a '
+             'Supervisor event callback without an is_master() guard on the path (R1, call graph); ELECTION is left '
+             'only under stability and a single agreed Master and every later state re-checks the Master (R2); the '
+             'Master is reset when it leaves RUNNING and has four writers only, selection is declared-first, '
+             'core-first, lowest nick (R3); every change of state & modes is published (R4); stability definition (R5).',
+        technique='guarded reachability over a context-sensitive call graph + return-path facts + who-may-write (ast)',
+        design='4/C01'),
+    'C08': dict(
+        text='Liveness (bounded return to OPERATION) is NOT decided. Decided are the structural ways progress is lost: '
+             'a state class deciding a transition the table refuses (parked for ever, R1: abstract decision sets of the '
+             '9 state classes vs _Transitions), OPERATION unreachable in the table (R2), missing re-evaluation hooks on '
+             'tick / Master publication / multi-step loop (R3), jobs not aborted when leaving working states (R4), a '
+             'Slave follow window narrower than the states its Master can reach alone (R5), failure-strategy dispatch '
+             '(R6) and the exact progress condition of each forward edge (R7).',
+        technique='abstract decision sets vs transition table + graph reachability + must-call + return-path facts (ast)',
+        design='4/C08'),
 }
 
 PENDING_REASON = 'check not implemented yet in this revision (static rules designed in DESIGN.md section 4)'
